@@ -19,6 +19,8 @@ from ..engine import (
     Stratified,
     AfterWrite,
     Targeted,
+    PingPong,
+    PINGPONG_TARGETS,
     PROBE_FUNCS,
     count_steps,
     install_copy_shim,
@@ -26,7 +28,7 @@ from ..engine import (
 )
 from ..ops import exec_read_op
 from ..edits import gen_edit, apply_edit
-from ..isolation import pristine_state
+from ..isolation import pristine_state, global_token
 from ..terms import World, KINDS, BuildError
 
 PID = "C08"
@@ -154,8 +156,9 @@ def generate(seed):
     sk = {}
     sk["mode"] = "pre" if r.random() < 0.8 else "op"
     sk["granularity"] = "opcode" if r.random() < 0.2 else "line"
-    sk["strategy"] = r.choice(["random", "random", "pct", "pct", "stratified", "after-write", "targeted", "targeted"])
+    sk["strategy"] = r.choice(["random", "random", "pct", "pct", "stratified", "after-write", "after-write", "targeted", "targeted", "pingpong", "pingpong"])
     sk["target"] = r.choice(sorted(PROBE_FUNCS))
+    sk["pp_target"] = r.choice(PINGPONG_TARGETS)
     sk["p"] = r.choice([0.002, 0.01, 0.05, 0.3])
     sk["d"] = r.choice([1, 2, 3])
     sk["digest_every"] = r.choice([1, 7, 31, 127])
@@ -322,7 +325,7 @@ def exec_op(world, op):
     return exec_read_op(world, op)
 
 
-def fresh_outcome(term, op, edit_log, gran="line", count=False):
+def fresh_outcome(term, op, edit_log, gran="line", count=False, funcs=None):
     """The same operation on freshly built objects, alone.  Objects are built
     first (Data wrappers included), then the caller-side edits made so far are
     applied to the fresh documents, then the operation runs."""
@@ -334,7 +337,7 @@ def fresh_outcome(term, op, edit_log, gran="line", count=False):
             if fresh.has("docs", di):
                 apply_edit(fresh.get("docs", di), e)
         if count:
-            return count_steps(lambda: exec_read_op(fresh, op), gran, cap=300_000)
+            return count_steps(lambda: exec_read_op(fresh, op), gran, cap=300_000, funcs=funcs)
         return exec_read_op(fresh, op), 0
 
 
@@ -353,6 +356,7 @@ def run(case):
     shim = install_copy_shim()
     ref = {}
     solo = {}
+    op_funcs = {}  # valida functions each distinct operation executes (from calibration)
     K = 0
     gran = sk["granularity"] if sk["mode"] == "pre" else "line"
     for c, prog in enumerate(programs):
@@ -362,7 +366,9 @@ def run(case):
                 continue
             if op not in ref:
                 try:
-                    out, n = fresh_outcome(term, op, (), gran, count=True)
+                    fset = set()
+                    out, n = fresh_outcome(term, op, (), gran, count=True, funcs=fset)
+                    op_funcs[op] = fset
                 except OpTimeout:
                     # a single operation on fresh objects does not terminate: not a
                     # history / schedule question; the world is discarded (counted)
@@ -417,8 +423,21 @@ def run(case):
             strat = PCT(rs, n, sk["d"], K + sum(len(p) for p in programs))
         elif name == "stratified":
             strat = Stratified(rs, solo)
-        elif name == "targeted":
-            strat = Targeted(rs, sk.get("target", "set_datum"))
+        elif name in ("targeted", "pingpong"):
+            # half of these runs aim at a function that operations of two different
+            # callers both execute in THIS run (known from calibration)
+            per_caller = [set().union(*[op_funcs.get(op, set()) for op in p]) if p else set() for p in programs]
+            common = set()
+            for i in range(n):
+                for j in range(i + 1, n):
+                    common |= per_caller[i] & per_caller[j]
+            common = sorted(f for f in common if not f.startswith("<"))
+            if name == "targeted":
+                tgt = rs.choice(common) if common and rs.random() < 0.5 else sk.get("target", "set_datum")
+                strat = Targeted(rs, tgt)
+            else:
+                tgt = rs.choice(common) if common and rs.random() < 0.5 else sk.get("pp_target", "Rule.test")
+                strat = PingPong(rs, tgt)
         else:
             strat = AfterWrite(rs, sk["p"] / 4)
         faults = []
@@ -446,6 +465,7 @@ def run(case):
         max_steps=60 * K + 50_000,
         light_every_step=bool(sk.get("light_every_step")) and sk["mode"] == "pre",
         light_window=_light_window(case, K),
+        global_probe=global_token if (sk["mode"] == "pre" and sk["strategy"] == "after-write" and not scripted) else None,
     )
     eng.run()
 
